@@ -510,7 +510,11 @@ async fn do_action<F: std::future::Future<Output = ()>>(wd: &mut World, run: &mu
                     }
                     wd.to_loop.send(m).ok();
                 }
-                "SlewEnd" => tokio::time::advance(std::time::Duration::from_secs(1_000_000)).await,
+                "SlewEnd" => {
+                    // slews are for 1 s at the maximum slew frequency (all modelled slews correct exactly 1 s)
+                    let d = 1.0 / wd.cfg.algo.slew_maximum_frequency_offset.min(1.0 / wd.cfg.algo.slew_minimum_duration);
+                    tokio::time::advance(std::time::Duration::from_secs_f64(d + 1.0)).await
+                }
                 _ => {
                     let k = i(a, "i") as usize - 1;
                     let id = wd.slots[k].id.unwrap();
@@ -537,6 +541,41 @@ async fn do_action<F: std::future::Future<Output = ()>>(wd: &mut World, run: &mu
     (wd.out_json(exit), panic)
 }
 
+/// derived observables of a (state, out) pair in the specification's JSON shape, see ConeTable in ClockCtl.tla
+fn derived(st: &Value, out: &Value) -> (Value, Value, Value) {
+    let clk = st["clk"].as_i64();
+    let rel = |v: &Value, sign: i64| match (v.as_i64(), clk) {
+        (Some(x), Some(c)) => json!(x + sign * c),
+        _ => json!([v.clone(), st["clk"].clone()]),
+    };
+    let mut reg = Vec::new();
+    let mut abs = Vec::new();
+    let mut ok_set = Vec::new();
+    for (k, sl) in st["src"].as_array().map(|a| a.as_slice()).unwrap_or(&[]).iter().enumerate() {
+        let sn = &sl["snap"];
+        let has = sn["has"] == json!(true);
+        let wide = sn["wide"] == json!(true);
+        reg.push(json!([sl["alive"], sl["reg"], sl["usable"], sn["has"], if has { sn["leap"].clone() } else { json!("none") }]));
+        abs.push(json!([
+            if has && !wide { rel(&sn["off"], 1) } else { json!(0) },
+            if has { rel(&sn["t"], -1) } else { json!(0) },
+            wide,
+            if sl["sv"]["n"] != json!(0) { rel(&sl["sv"]["off"], 1) } else { json!(0) },
+            sl["sv"]["n"],
+            sl["sv"]["wide"],
+        ]));
+        if sl["reg"] == json!(true) && sl["usable"] == json!(true) {
+            ok_set.push(json!(k as i64 + 1));
+        }
+    }
+    let used_ok = if out["err"] == json!(true) {
+        st["used"].as_array().map(|u| u.iter().all(|x| ok_set.contains(x))).unwrap_or(false)
+    } else {
+        true
+    };
+    (json!(reg), json!(abs), json!(used_ok))
+}
+
 fn diff_state(expected_post: &Value, expected_out: &Value, st: &Value, out: &Value) -> Vec<String> {
     let mut fields = Vec::new();
     if expected_post["dead"] == json!(true) || st["dead"] == json!(true) {
@@ -545,6 +584,22 @@ fn diff_state(expected_post: &Value, expected_out: &Value, st: &Value, out: &Val
         }
     } else {
         util::diff_fields("", expected_post, st, &mut fields);
+        let e = derived(expected_post, expected_out);
+        let o = derived(st, out);
+        if e.0 != o.0 {
+            fields.push("srcReg".to_string());
+        }
+        if e.1 != o.1 {
+            fields.push("srcAbs".to_string());
+        }
+        if e.2 != o.2 {
+            fields.push("usedOk".to_string());
+        }
+    }
+    // "cons": this update reached a combined estimate (it went on to the steering decision)
+    let cons = |o: &Value| o["err"] == json!(true) || o["exit"] == json!(true);
+    if cons(expected_out) != cons(out) {
+        fields.push("cons".to_string());
     }
     util::diff_fields("out.", expected_out, out, &mut fields);
     // frequencies are modelled in whole ppm without the second-order term of (1+f)(1+c)-1 (< 0.3 ppm per call,
@@ -577,7 +632,7 @@ async fn replay_walk(cfgv: &Value, walk: &Value, seed: u64) -> Value {
         if panic.is_some() {
             fields.push("panic".to_string());
             // a panic is a difference of everything the step could have produced
-            for f in ["out.steps", "out.exit", "out.err", "out.status", "out.freqs", "out.freqOk", "src", "used", "acc", "clk"] {
+            for f in ["out.steps", "out.exit", "out.err", "out.status", "out.freqs", "out.freqOk", "src", "srcReg", "srcAbs", "used", "cons", "acc", "clk"] {
                 fields.push(f.to_string());
             }
         }
